@@ -706,6 +706,122 @@ theorem no_nil_deref_panic (facts : List Access) (cleared : List Nat) (holderHb 
 example : ((lrun (0, 0) (fun o => (1, o)) LState.init (staleTrace.take 9)).map
     (fun s => panicsAt s (.use 1 7 0))) = some true := by decide
 
+/-! ## Lock order: a ranked acquisition order admits no wait cycle (no AB-BA deadlock)
+
+  A thread blocked in `acq t m` waits for the holder of `m`.  A deadlock among mutexes is a cycle
+  `t0 →(m0) t1 →(m1) … →(mk) t0` in which each `ti` waits for `mi`, held by the next thread.  If
+  every waiting thread holds only mutexes ranked below the one it waits for, no such cycle exists
+  (the ranks would increase strictly around it).  The static side: the translator lists every
+  "acquires B while holding A" site; `Tie.C15.lock_order_ranked` shows by `decide` that the tree's
+  relation has a rank function. -/
+
+structure Wait where
+  t : Thread
+  m : Lock
+deriving DecidableEq, Repr
+
+/-- consecutive elements: what `a` waits for is held by the next thread -/
+def chainOK (h : Holder) : List Wait → Prop
+  | [] => True
+  | [_] => True
+  | a :: b :: rest => h a.m = some b.t ∧ chainOK h (b :: rest)
+
+/-- every waiting thread holds only mutexes ranked below the one it waits for -/
+def RankOK (rank : Lock → Nat) (h : Holder) (ws : List Wait) : Prop :=
+  ∀ w ∈ ws, ∀ m', h m' = some w.t → rank m' < rank w.m
+
+theorem chain_rank_increases (rank : Lock → Nat) (h : Holder) :
+    ∀ (rest : List Wait) (a : Wait), RankOK rank h (a :: rest) → chainOK h (a :: rest) →
+      ∀ x ∈ rest, rank a.m < rank x.m := by
+  intro rest
+  induction rest with
+  | nil => intro a _ _ x hx; cases hx
+  | cons b r ih =>
+    intro a hr hc x hx
+    obtain ⟨hab, hc'⟩ := hc
+    have hb : rank a.m < rank b.m := hr b (by simp) a.m hab
+    simp only [List.mem_cons] at hx
+    rcases hx with rfl | hx
+    · exact hb
+    · have hr' : RankOK rank h (b :: r) := fun w hw => hr w (by simp [List.mem_cons] at hw ⊢; right; exact hw)
+      exact Nat.lt_trans hb (ih b hr' hc' x hx)
+
+/-- **No wait cycle under a ranked lock order.** -/
+theorem no_wait_cycle (rank : Lock → Nat) (h : Holder) (a : Wait) (rest : List Wait)
+    (hr : RankOK rank h (a :: rest)) (hc : chainOK h (a :: rest))
+    (hclose : h ((a :: rest).getLast (by simp)).m = some a.t) : False := by
+  cases rest with
+  | nil =>
+    simp only [List.getLast_singleton] at hclose
+    exact Nat.lt_irrefl _ (hr a (by simp) a.m hclose)
+  | cons b r =>
+    have hmem : (a :: b :: r).getLast (by simp) ∈ b :: r := by
+      rw [List.getLast_cons (by simp)]
+      exact List.getLast_mem _
+    have h1 := chain_rank_increases rank h (b :: r) a hr hc _ hmem
+    have h2 := hr a (by simp) _ hclose
+    exact Nat.lt_irrefl _ (Nat.lt_trans h1 h2)
+
+/-- class-level rank lifted to concrete mutexes; `cls` maps a concrete mutex to its class in the static
+    table (all `refMu`s are one class) -/
+def instRank (classRank : Nat → Nat) (cls : Lock → Nat) (m : Lock) : Nat := classRank (cls m)
+
+/-- what the static lock-order table claims about a state: whenever a thread waits for `m` while
+    holding `m'`, the pair (class of `m'`, class of `m`) is one of the table's edges -/
+def LockOrderConforms (edges : List (Nat × Nat)) (cls : Lock → Nat) (h : Holder) (ws : List Wait) : Prop :=
+  ∀ w ∈ ws, ∀ m', h m' = some w.t → (cls m', cls w.m) ∈ edges
+
+/-- **No deadlock among the tracked mutexes**: a table of acquisition-order edges that has a rank
+    function, any holder state and any set of blocked acquisitions conforming to it: there is no
+    wait cycle. -/
+theorem ranked_lock_order_no_deadlock (edges : List (Nat × Nat)) (cls : Lock → Nat) (classRank : Nat → Nat)
+    (hranked : ∀ e ∈ edges, classRank e.1 < classRank e.2)
+    (h : Holder) (a : Wait) (rest : List Wait)
+    (hconf : LockOrderConforms edges cls h (a :: rest)) (hc : chainOK h (a :: rest))
+    (hclose : h ((a :: rest).getLast (by simp)).m = some a.t) : False :=
+  no_wait_cycle (instRank classRank cls) h a rest
+    (fun w hw m' hm' => hranked _ (hconf w hw m' hm')) hc hclose
+
+/-- **Witness (F12c, the order the pinned scheduler had)**: `updateFreeSpace` takes `loadedMu` then
+    `refMu`, the expired handler took `refMu` then `loadedMu`.  The two-edge table has no rank
+    function, and the history "t1 holds A, t2 holds B" is enabled while both next acquisitions are
+    disabled and form a closed wait chain: a deadlock. -/
+theorem abba_deadlock_witness :
+    (∀ rank : Nat → Nat, ¬ (∀ e ∈ [((0 : Nat), (3 : Nat)), (3, 0)], rank e.1 < rank e.2)) ∧
+    (run Holder.init [.acq 1 (0, 0), .acq 2 (3, 7)]).isSome = true ∧
+    ((run Holder.init [.acq 1 (0, 0), .acq 2 (3, 7)]).bind (fun h => step h (.acq 1 (3, 7)))) = none ∧
+    ((run Holder.init [.acq 1 (0, 0), .acq 2 (3, 7)]).bind (fun h => step h (.acq 2 (0, 0)))) = none ∧
+    chainOK (holderOf [.acq 1 (0, 0), .acq 2 (3, 7)]) [⟨1, (3, 7)⟩, ⟨2, (0, 0)⟩] ∧
+    holderOf [.acq 1 (0, 0), .acq 2 (3, 7)] (0, 0) = some 1 := by
+  refine ⟨?_, by decide, by decide, by decide, ?_, by decide⟩
+  · intro rank hall
+    have h1 := hall (0, 3) (by simp)
+    have h2 := hall (3, 0) (by simp)
+    simp only at h1 h2
+    omega
+  · refine ⟨by decide, trivial⟩
+
+/-- non-vacuity of `ranked_lock_order_no_deadlock`: the tree's shape (one edge registry → object)
+    with a real blocked acquisition that conforms: t1 holds the registry lock and waits for the object
+    lock held by t2, who waits for nothing -/
+example : (∀ e ∈ [((0 : Nat), (3 : Nat))], (fun c => if c = 0 then 1 else 2) e.1 < (fun c => if c = 0 then 1 else 2) e.2) ∧
+    LockOrderConforms [(0, 3)] (fun m => m.1) (holderOf [.acq 1 (0, 0), .acq 2 (3, 7)]) [⟨1, (3, 7)⟩] ∧
+    chainOK (holderOf [.acq 1 (0, 0), .acq 2 (3, 7)]) [⟨1, (3, 7)⟩] := by
+  refine ⟨by simp, ?_, trivial⟩
+  intro w hw m' hm'
+  simp only [List.mem_singleton] at hw
+  subst hw
+  simp only [List.mem_singleton, Prod.mk.injEq]
+  have hh : ∀ m, holderOf [Ev.acq 1 (0, 0), Ev.acq 2 (3, 7)] m =
+      if m = (3, 7) then some 2 else if m = (0, 0) then some 1 else none := by
+    intro m; simp [holderOf, run, step, Holder.init, Holder.set]
+  rw [hh] at hm'
+  by_cases h1 : m' = (3, 7)
+  · simp [h1] at hm'
+  · by_cases h2 : m' = (0, 0)
+    · subst h2; simp
+    · simp [h1, h2] at hm'
+
 /-! ## Witnesses -/
 
 private def rd (site cls : Nat) (locks : List LockRef) (thread : Nat) : Access :=
@@ -1022,5 +1138,75 @@ example : checkClass handoffFacts 0 = true ∧ (run Holder.init handoffTrace).is
     localHeld 1 (3, 5) (handoffTrace.take 4) false = false ∧
     (⟨1, true⟩ : LockRef).inst 5 = (3, 5) := by
   refine ⟨by decide, by decide, by decide, by decide, by decide⟩
+
+/-! ## Reader/writer exclusion -/
+
+/-- a writer excludes every reader -/
+def RWInv (s : RWState) : Prop := ∀ m t, s.writer m = some t → s.readers m = []
+
+theorem rwstep_inv (s s' : RWState) (e : RWEv) (h : RWInv s) (hs : rwstep s e = some s') : RWInv s' := by
+  intro m t hw
+  cases e with
+  | wacq t' m' =>
+    simp only [rwstep] at hs
+    split at hs
+    · rename_i hg
+      injection hs with hs; subst hs
+      simp only at hw ⊢
+      by_cases hm : m = m'
+      · subst hm; exact hg.2
+      · simp only [hm, if_false] at hw; exact h m t hw
+    · cases hs
+  | wrel t' m' =>
+    simp only [rwstep] at hs
+    split at hs
+    · injection hs with hs; subst hs
+      simp only at hw ⊢
+      by_cases hm : m = m'
+      · simp [hm] at hw
+      · simp only [hm, if_false] at hw; exact h m t hw
+    · cases hs
+  | racq t' m' =>
+    simp only [rwstep] at hs
+    split at hs
+    · rename_i hg
+      injection hs with hs; subst hs
+      simp only at hw ⊢
+      by_cases hm : m = m'
+      · subst hm; rw [hg] at hw; cases hw
+      · simp only [hm, if_false]; exact h m t hw
+    · cases hs
+  | rrel t' m' =>
+    simp only [rwstep] at hs
+    split at hs
+    · injection hs with hs; subst hs
+      simp only at hw ⊢
+      by_cases hm : m = m'
+      · subst hm; simp [h m t hw]
+      · simp only [hm, if_false]; exact h m t hw
+    · cases hs
+
+/-- **Reader/writer exclusion, every history**: in every state reachable by enabled steps, a mutex
+    that has a writer has no reader (so a write access made under `Lock` and a read access made
+    under `RLock` of the same RWMutex never overlap). -/
+theorem rw_writer_excludes_readers (evs : List RWEv) :
+    ∀ (s s' : RWState), RWInv s → rwrun s evs = some s' → RWInv s' := by
+  induction evs with
+  | nil => intro s s' h hr; simp only [rwrun] at hr; injection hr with hr; subst hr; exact h
+  | cons e es ih =>
+    intro s s' h hr
+    simp only [rwrun] at hr
+    cases hs : rwstep s e with
+    | none => rw [hs] at hr; cases hr
+    | some s1 => rw [hs] at hr; exact ih s1 s' (rwstep_inv s s1 e h hs) hr
+
+theorem rw_init_inv : RWInv RWState.init := by intro m t h; cases h
+
+/-- two readers at once are allowed (what the exclusive-mutex semantics cannot express), a writer
+    next to a reader is not -/
+example : (rwrun RWState.init [.racq 1 (0, 0), .racq 2 (0, 0)]).isSome = true ∧
+    (rwrun RWState.init [.racq 1 (0, 0), .wacq 2 (0, 0)]).isSome = false ∧
+    (rwrun RWState.init [.wacq 1 (0, 0), .racq 2 (0, 0)]).isSome = false := by
+  refine ⟨by decide, by decide, by decide⟩
 
 end OllamaVerif.Lockset
